@@ -339,7 +339,7 @@ pub fn exec(func: &str, a: &mut Args) -> String {
         "cc2" => cc2(a),
         "hf2" => hf2(a),
         "seq3t" => seq3t(a),
-        "seq2t" => seq2t(a),
+        "seq2t" | "seq2m" => seq2t(a),
         "comp3" => comp3(a, false),
         "tm3" => comp3(a, true),
         _ => ext::exec(func, a),
